@@ -48,7 +48,11 @@ func (c *caseC19) req(s stepC19) *wire.Req {
 	case "check":
 		return &wire.Req{Op: "check", Text: p.Text, SettleMs: 20000}
 	}
-	return &wire.Req{Op: "run", Text: p.Text, Mode: s.Mode, Monitor: s.Monitor, Procs: 4, YieldSeed: s.Yield, TimeoutMs: 10000, PostAPI: true}
+	to := 10000
+	if p.Class == "diverge" {
+		to = 250 // it never ends by itself: the host cancels it
+	}
+	return &wire.Req{Op: "run", Text: p.Text, Mode: s.Mode, Monitor: s.Monitor, Procs: 4, YieldSeed: s.Yield, TimeoutMs: to, PostAPI: true}
 }
 
 // errKey keeps the part of a type error that is a function of the program: the declaration it
@@ -143,6 +147,23 @@ func checkC19(h *harness.H, ci interface{}) *harness.Failure {
 			return harness.Failf("%s: in a fresh process it answers, after the history below the host process %s\nhistory:\n  %s\nstderr: %s\nprogram:\n%s", desc,
 				map[pool.Outcome]string{pool.Crash: "died", pool.Hang: "hangs", pool.Infra: "is broken"}[a.Outcome], strings.Join(trace, "\n  "), harness.Brief(a.Stderr), c.Progs[s.Prog].Text)
 		}
+		if c.Progs[s.Prog].Class == "diverge" && s.Op == "run" {
+			// a program that runs for ever is cancelled by the host after 250 ms; how far it got is
+			// a matter of timing, but it must be gone afterwards
+			h.S.Count("diverging_run_cancelled")
+			trace = append(trace, desc+" -> cancelled after 250 ms")
+			if !a.Resp.ParseOK || !a.Resp.CheckOK || !b.Resp.ParseOK || !b.Resp.CheckOK {
+				return harness.Failf("%s: a diverging program of the fixed family is not accepted (generator problem)\n%s", desc, c.Progs[s.Prog].Text)
+			}
+			if !a.Resp.Timeout {
+				h.S.Count("diverging_run_ended_by_itself")
+			}
+			if a.Resp.BusyAfterCancel > 0 {
+				return harness.Failf("%s: 10 s after the host cancelled the run, %d of its processes are still running in the host process (left-over activity that prints into and competes with every later run)\nhistory:\n  %s\nprogram:\n%s",
+					desc, a.Resp.BusyAfterCancel, strings.Join(trace, "\n  "), c.Progs[s.Prog].Text)
+			}
+			continue
+		}
 		oa, ob := observe(s.Op, a.Resp), observe(s.Op, b.Resp)
 		trace = append(trace, desc+" -> "+short(oa, 200))
 		if a.Resp.Timeout || b.Resp.Timeout {
@@ -207,6 +228,10 @@ func genC19(rt *rapid.T, h *harness.H) interface{} {
 		h.S.Count("family_history")
 	}
 	for i := len(c.Progs); i < np; i++ {
+		if d.Chance(12, "diverging") {
+			c.Progs = append(c.Progs, progC19{Text: divergingProgram(d), Class: "diverge"})
+			continue
+		}
 		switch d.Pick(5, "progclass") {
 		case 0:
 			base := func() string { return (&gen.Syn{D: d}).Program().Text(&astStyle) }
@@ -260,6 +285,23 @@ func genC19(rt *rapid.T, h *harness.H) interface{} {
 	}
 	h.S.Sample(map[string]interface{}{"programs": len(c.Progs), "steps": c.Steps, "first_program": short(c.Progs[0].Text, 300)})
 	return c
+}
+
+// divergingProgram: a well-typed program that never stops — by internal steps only (calls and
+// prints), by spawning and waiting, or by an endless conversation between two processes.
+func divergingProgram(d gen.D) string {
+	m := []string{"lin", "aff", "mul", "rep"}[d.Pick(4, "divmode")]
+	tick := []string{"tick", "t", "again"}[d.Pick(3, "ticklabel")]
+	switch d.Pick(4, "divkind") {
+	case 0:
+		return fmt.Sprintf("let loop() : %s 1 =\n    print %s;\n    loop()\nprc[spin] : %s 1 =\n    loop()\n", m, tick, m)
+	case 1:
+		return fmt.Sprintf("let unit() : %s 1 =\n    close self\nlet loop() : %s 1 =\n    x <- new unit();\n    wait x;\n    print %s;\n    loop()\nprc[spin] : %s 1 =\n    loop()\n", m, m, tick, m)
+	case 2:
+		return fmt.Sprintf("type srv = %s &{ping : rsp}\ntype rsp = %s +{pong : srv}\nlet server() : %s srv =\n    case self (ping<s> => r <- new server(); s.pong<r>)\n"+
+			"let client(s : %s srv) : %s 1 =\n    a : %s rsp <- new s.ping<self>;\n    case a (pong<b> => print %s; client(b))\nprc[talk] : %s 1 =\n    sv <- new server();\n    client(sv)\n", m, m, m, m, m, m, tick, m)
+	}
+	return fmt.Sprintf("let loop() : %s 1 =\n    loop()\nprc[quiet] : %s 1 =\n    loop()\nprc[other] : %s 1 =\n    print %s;\n    close self\n", m, m, m, tick)
 }
 
 func refsemOK(p *ast.Program) bool {
